@@ -354,6 +354,46 @@ def _mutate_file(c: Ctx, files, how):
     c.expect = _classify_project(c)
 
 
+def f_split_across_files(which):
+    """One definition torn over two files of a directory: each file is invalid alone although their sorted concatenation
+    parses (a crash between two writes of an editor/sync tool, or a bad manual split)."""
+    def fn(c: Ctx):
+        key = "schema_path" if which == "schema" else "queries_path"
+        files = c.schema_files() if which == "schema" else c.query_files()
+        if not files:
+            return "skip"
+        src = files[c.ch.draw("src.file", len(files))]
+        text = open(src, encoding="utf-8").read()
+        opens = [i for i, ch_ in enumerate(text) if ch_ == "{"]
+        if not opens:
+            return "skip"
+        cut = opens[c.ch.draw("src.open", len(opens))] + 1
+        path = os.path.join(c.root, c.cfg[key])
+        if os.path.isdir(path):
+            d, base = os.path.dirname(src), os.path.basename(src)
+            stem, ext = os.path.splitext(base)
+            first, second = src, os.path.join(d, stem + "_zz_continued" + ext)
+            # the continuation must come right after its first half in the sorted order of the whole tree
+            allf = sorted(files + [second])
+            if allf.index(second) != allf.index(first) + 1:
+                return "skip"
+        else:
+            os.unlink(path)
+            newdir = os.path.join(c.root, which + "_split_dir")
+            os.makedirs(newdir, exist_ok=True)
+            first, second = os.path.join(newdir, "a_part.graphql"), os.path.join(newdir, "b_part.graphql")
+            c.cfg[key] = which + "_split_dir"
+        with open(first, "w", encoding="utf-8") as f:
+            f.write(text[:cut])
+        with open(second, "w", encoding="utf-8") as f:
+            f.write(text[cut:])
+        c.note = "definition torn over %s and %s" % (os.path.relpath(first, c.root), os.path.relpath(second, c.root))
+        c.expect = _classify_project(c)
+    if which == "queries":
+        fn.applies = "client"
+    return fn
+
+
 def f_src(which, how):
     def fn(c: Ctx):
         return _mutate_file(c, c.schema_files() if which == "schema" else c.query_files(), how)
@@ -592,6 +632,7 @@ for _s in NAME_SETTINGS_CLIENT + NAME_SETTINGS_SCHEMA:
 for _w in ("schema", "queries"):
     for _h in ("truncate", "drop_brace", "garbage", "empty"):
         FAULTS["syntax:%s:%s" % (_w, _h)] = f_src(_w, _h)
+    FAULTS["syntax:%s:split_across_files" % _w] = f_split_across_files(_w)
 for _r in SCHEMA_MUTATIONS:
     FAULTS["schema-validity:%s" % _r] = f_schema_validity(_r)
 for _r in OP_RULES:
